@@ -426,9 +426,17 @@ func loops(run *lib.Run, root *lib.RNG) {
 				fmt.Fprintf(s.C, "GET http://%s/loop %s\r\nHost: %s\r\nX-Vid: loop%d\r\n\r\n", originHost, proto, originHost, i)
 			}
 			res, st, rerr := s.ReadResponse(method, 20*time.Second)
+			// a request is counted when its handling ends, which may be a moment after the client
+			// has its answer: give the counters up to 2 s to reach the expected values
 			var counts []float64
-			for _, p := range ps {
-				counts = append(counts, reqsTotal(p))
+			for t := time.Now(); ; time.Sleep(2 * time.Millisecond) {
+				counts = counts[:0]
+				for _, p := range ps {
+					counts = append(counts, reqsTotal(p))
+				}
+				if fmt.Sprint(counts) == fmt.Sprint(wantCounts) || time.Since(t) > 2*time.Second {
+					break
+				}
 			}
 			wit := map[string]any{"kind": kind, "proto": proto, "method": method, "upstream_scheme": scheme, "requests_per_instance": counts, "origin_requests": len(origin.Requests())}
 			select {
